@@ -2,6 +2,7 @@ package encryption
 
 import (
 	"encoding/hex"
+	"strings"
 
 	"0chain.net/core/common"
 	"golang.org/x/crypto/sha3"
@@ -19,9 +20,13 @@ func Hash(data interface{}) string {
 	return hex.EncodeToString(RawHash(data))
 }
 
+// IsHash reports whether str is the canonical (lower-case hex) spelling of a hash.
+// Upper- or mixed-case spellings are rejected: the state trie indexes children by hex
+// value but compares leaf paths bytewise, so a transfer to another spelling of an
+// existing client id was applied without ever crediting a leaf.
 func IsHash(str string) bool {
 	bytes, err := hex.DecodeString(str)
-	return err == nil && len(bytes) == HASH_LENGTH
+	return err == nil && len(bytes) == HASH_LENGTH && strings.ToLower(str) == str
 }
 
 //EmptyHash - hash of an empty string
